@@ -337,6 +337,8 @@ struct Model {
 			stat["passwd_ok"]++;
 			return true;
 		}
+		if (!p.authed && (name == "get" || name == "fetch" || name == "set" || name == "call")) stat["unauth_requests"]++;
+		if (name == "add") stat[p.local ? "add_from_local" : "add_from_remote"]++;
 		if (name == "get") {
 			Rule r = parse_rule(P("path"), cfg.max_matchers);
 			if (!r.valid) return err("bad rule");
